@@ -4,7 +4,10 @@
    saw ("ok" = non-NULL, "null" = NULL or std::bad_alloc, "reported" = the were-all-done check failed the
    test, "none").  The value cpputest_malloc_get_count returns after the call is logged too (count) and predicted (Predict: count_read) as a
    diagnostic, but not bound: C15 fixes which allocations fail, not what the statistics counter counts (e.g. whether failed requests count).  Which of several coinciding designations an allocation uses up is not logged: TLC
-   searches the choices the specification leaves open. *)
+   searches the choices the specification leaves open.  Which allocator is the current malloc allocator after the call is logged (cur) and
+   predicted (Predict: current) as a diagnostic, not bound either: the statement fixes the results of the allocations, not the mechanism (an
+   implementation may simulate out-of-memory without swapping allocators).  The harness never re-installs an allocator on its own: only `install'
+   lines (and reset) do, so which allocator serves the allocations after set_not_out_of_memory is the code's doing. *)
 EXTENDS FailAlloc, Json, IOUtils
 VARIABLE l
 tvars == <<vars, l>>
@@ -20,6 +23,7 @@ Walk == \/ Is("failnum") /\ FailNumber(E.n)
         \/ Is("countdown") /\ Countdown(E.n)
         \/ Is("setoom") /\ SetOOM
         \/ Is("setnotoom") /\ SetNotOOM
+        \/ Is("install") /\ E.via \in Allocators /\ Install(E.via)
         \/ Is("countreset") /\ CountReset
         \/ Is("getcount") /\ GetCount
         \/ Is("c") /\ E.via \in CFns /\ \E C \in SUBSET Matching(E.loc) : CAlloc(E.via, E.loc, C)
@@ -29,7 +33,7 @@ ObsOK(res, cnt) == res = E.res
 TNext == Walk /\ ObsOK(last'.res, mc')
 \* executions are concatenated with reset lines (fresh allocator, injections cleared, statistics reset)
 TReset == /\ Is("reset") /\ pending' = <<>> /\ count' = 0 /\ todo' = {} /\ lc' = [x \in Locs |-> 0]
-          /\ cd' = -1 /\ oom' = FALSE /\ cn' = -1 /\ cseen' = 0 /\ forced' = FALSE /\ mc' = 0
+          /\ cd' = -1 /\ oom' = FALSE /\ sel' = "failable" /\ cn' = -1 /\ cseen' = 0 /\ forced' = FALSE /\ mc' = 0
           /\ last' = Outcome("init", "none", FALSE)
 TSpec == TInit /\ [][TNext \/ TReset]_tvars
 Accepted == TLCGet("stats").diameter - 1 = Len(Tr)
@@ -39,5 +43,5 @@ TInv == /\ ExactlyDesignated /\ ReportsUndone /\ PendingLive /\ ClearRestores
 \* diagnostics: the same walk without binding the observations; prints what the specification predicts
 PSpec == TInit /\ [][Walk \/ TReset]_tvars
 Predict == (l > 1 /\ l - 1 >= atoi(IOEnv.FROM_LINE_N)) =>
-              PrintT(<<"BEH", ToJson([line |-> l - 1, last |-> last, pending |-> pending, count |-> count, cd |-> cd, oom |-> oom, count_read |-> mc])>>)
+              PrintT(<<"BEH", ToJson([line |-> l - 1, last |-> last, pending |-> pending, count |-> count, cd |-> cd, oom |-> oom, current |-> Current, count_read |-> mc])>>)
 =============================================================================
